@@ -123,7 +123,7 @@ def reduced_check(ctx, c, outs):
     G = group(c["group"])
     with warnings.catch_warnings():
         warnings.simplefilter("ignore")
-        R = get_sample_reduced_fundamental(c["resolution"], point_group=G)
+        R = get_sample_reduced_fundamental(c["resolution"], point_group=G, **({"method": c["method"]} if c.get("method") else {}))
         fs = G.fundamental_sector
         z = (R * Vector3d.zvector()).data.reshape(-1, 3)
     n = fs.data.reshape(-1, 3)
@@ -149,8 +149,9 @@ def reduced_check(ctx, c, outs):
         rad = np.rad2deg(np.arccos(np.clip((t @ z.T).max(axis=1), -1, 1)))
         worst = float(rad.max())
         ctx.dev(f"reduced_covering_deg/r{c['resolution']}", worst)
-        if worst > 1.5 * c["resolution"]:
-            return (f"reduced fundamental sample of {G.name} at {c['resolution']} deg leaves direction "
+        bound = 1.5 * c["resolution"] if not c.get("method") else max(float(S2_BOUND[c["method"]](c["resolution"])), 1.5 * c["resolution"])
+        if worst > bound:
+            return (f"reduced fundamental sample of {G.name}{' (method ' + c['method'] + ')' if c.get('method') else ''} at {c['resolution']} deg leaves direction "
                     f"{t[int(np.argmax(rad))].tolist()} {worst:.2f} deg from the nearest sampled direction")
     return None
 
@@ -855,6 +856,22 @@ def generate(ctx):
         ctx.count("reduced_sample", ("red", G.name))
         yield "reduced_sample", {"group": G.name, "resolution": 5.0 if quick else 3.0, "n_targets": 400,
                                  "seed": int(rng.integers(1 << 30))}
+        # an explicit meshing method (rotating through all of them over the groups)
+        meth = list(S2_BOUND)[S._groups.index(G) % len(S2_BOUND)]
+        ctx.count(f"reduced_sample/{meth}", ("redm", G.name, meth))
+        yield "reduced_sample", {"group": G.name, "resolution": 5.0 if quick else 3.0, "n_targets": 400, "method": meth,
+                                 "seed": int(rng.integers(1 << 30))}
+        if not G.is_proper and not G.contains_inversion:
+            # sectors of these groups reach below the equator: the hemisphere-limited meshes must not be cut
+            for meth in ("uv", "equal_area"):
+                ctx.count(f"reduced_sample/{meth}/improper_without_inversion", ("redi", G.name, meth))
+                yield "reduced_sample", {"group": G.name, "resolution": 6.0, "n_targets": 300, "method": meth,
+                                         "seed": int(rng.integers(1 << 30))}
+        if not quick:
+            for meth in S2_BOUND:
+                ctx.count(f"reduced_sample/{meth}", ("redm", G.name, meth))
+                yield "reduced_sample", {"group": G.name, "resolution": 4.0, "n_targets": 300, "method": meth,
+                                         "seed": int(rng.integers(1 << 30))}
     for m in ("cubochoric", "haar_euler", "quaternion"):
         for k in range(2 if quick else 6):
             ctx.count(f"local_sample/{m}", ("loc", m, k))
